@@ -96,12 +96,13 @@ ORACLES = {
     'C03': [_oracle('nested negation, one variable', 200, 3000, nvars=1, depth=3, neg=True, nested_neg=True),
             _oracle('nested negation, two variables', 100, 1500, nvars=2, depth=2, neg=True, nested_neg=True)],
     'C06': [_oracle('the() vs number of solutions, evaluated twice', 200, 3000, kind='the'),
+            _oracle('the() with a unique / no / several solutions (threshold conditions)', 150, 2000, kind='the', n=4, distinct_sizes=True),
             _oracle('the() over equal-looking distinct instances', 60, 600, kind='the', equal_instances=True),
             _oracle('the() evaluated inside a symbolic block', 60, 600, kind='the', inside='query')],
     'C08': [_oracle('interleavings of blocks and result iterators', 150, 3000, kind='modes', steps=10)],
     'C09': [_oracle('predicates evaluated under interleaved modes', 150, 3000, kind='modes', steps=8, predicates=True),
-            _oracle('the() with predicates, inside a rule block', 80, 800, kind='the', inside='rule', vocab=['pred', 'cmp'], n=4),
-            _oracle('the() with predicates, inside a query block', 80, 800, kind='the', inside='query', vocab=['pred', 'cmp'], n=4),
+            _oracle('the() with predicates, inside a rule block', 80, 800, kind='the', inside='rule', vocab=['pred', 'cmp'], n=4, distinct_sizes=True),
+            _oracle('the() with predicates, inside a query block', 80, 800, kind='the', inside='query', vocab=['pred', 'cmp'], n=4, distinct_sizes=True),
             _oracle('an() with predicates and attribute conditions', 100, 1500, nvars=1, depth=2, vocab=['pred', 'cmp', 'name'], neg=True)],
     'C15': [_oracle('an(entity) sub-query as a condition, and/or', 150, 2000, kind='subquery')],
     'C16': [_oracle('flatten, parent selected, no condition', 40, 400, kind='flatten', with_cond=False, select_parent=True),
